@@ -216,7 +216,7 @@ fn run_stream<T: SampleX>(c: &StreamCase) -> Outcome {
         o.class(l);
     }
     cfg.channels = 1;
-    cfg.max_rel = 1.0;
+    cfg.max_rel = cfg.max_rel.max(1.0);
     o.class(format!("stream:{}", cfg.kind.name()));
     let sig = Signal::TonesNoise { tones: c.tones.clone(), seed: c.seed, noise: 0.05 };
     let peak: f64 = c.tones.iter().map(|t| t.a).sum::<f64>() + 0.05;
@@ -285,10 +285,10 @@ impl Property for C15 {
                 Case::Kernel(KernelCase { f32, l8, os, window, fc, wave, seed, align, extra, points })
             });
         let tone = (0.001f64..0.3, 0.2f64..1.0, 0.0f64..6.28).prop_map(|(f, a, ph)| Tone { f, a, ph });
-        let stream = (any::<bool>(), any::<bool>(), crate::cfg::ratio_strategy(), crate::cfg::chunk_strategy(1024), 1usize..=16, 1usize..=64, 0u8..4, 0u8..6, proptest::collection::vec(tone, 1..=2), any::<u64>(), 600usize..1500, prop_oneof![2 => Just(0usize), 1 => 1usize..8])
-            .prop_map(|(f32, fo, ratio, chunk, l8, os, interp, window, tones, seed, out_frames, short)| {
+        let stream = (any::<bool>(), any::<bool>(), crate::cfg::ratio_strategy(), crate::cfg::chunk_strategy(1024), 1usize..=16, 1usize..=64, 0u8..4, 0u8..6, proptest::collection::vec(tone, 1..=2), any::<u64>(), 600usize..1500, (prop_oneof![2 => Just(0usize), 1 => 1usize..8], prop_oneof![1 => Just(1.0f64), 1 => 1.0f64..16.0]))
+            .prop_map(|(f32, fo, ratio, chunk, l8, os, interp, window, tones, seed, out_frames, (short, max_rel))| {
                 // any integer length: new() must round it up to a multiple of 8, as the explicit kernels are built
-                let cfg = Config { kind: if fo { Kind::SincOut } else { Kind::SincIn }, f32, ratio, chunk, sinc_len: 8 * l8 - short, os, interp, window, f_cutoff: 0.9, ..Config::default() };
+                let cfg = Config { kind: if fo { Kind::SincOut } else { Kind::SincIn }, f32, ratio, chunk, sinc_len: 8 * l8 - short, os, interp, window, f_cutoff: 0.9, max_rel, ..Config::default() };
                 let max_out = ((1u64 << 17) as f64 * ratio) as usize;
                 Case::Stream(StreamCase { cfg, tones, seed, out_frames: out_frames.min(max_out.max(500)) })
             });
